@@ -23,6 +23,9 @@ from .props import META, REGISTRY
 
 def load_prop(prop):
   importlib.import_module('vf.props.%s' % prop.lower())
+  from . import generic
+  from .props import RuleSpec
+  generic.ensure(prop, REGISTRY, RuleSpec)
   specs = REGISTRY.get(prop)
   if not specs:
     raise AnalysisError('no rules registered for %s' % prop)
